@@ -25,6 +25,7 @@ FAMILIES = [
     ('histsim', 'c08-each', 30, 220),
     ('defsim', 'c20', 30, 220), ('defsim', 'c20-redef', 30, 220), ('defsim', 'c20-ncep', 30, 220),
     ('defsim', 'c20-fixed', 30, 220), ('defsim', 'c08-def', 30, 220),
+    ('subsim', 'c06', 60, 400), ('subsim', 'c06-each', 40, 300),
 ]
 
 
@@ -46,6 +47,10 @@ def compute(tier, njobs, seed):
                 if hasattr(eng, 'prepare_pool'):
                     pool = eng.prepare_pool(pool)
                 pools[eng_name] = pool
+            pool = pools[eng_name]
+        elif hasattr(eng, 'build_pool'):
+            if eng_name not in pools:
+                pools[eng_name] = eng.build_pool(seed, 'quick')[0]
             pool = pools[eng_name]
         else:
             pool = []
